@@ -3,7 +3,7 @@
 #include "src/parse.c"
 #ifdef VERIF_REPLAY
 #include "parse_spec.h"
-struct ref_parser g_ref; unsigned g_w, g_live0, g_steps, g_did_align; uint64_t g_buff0; int g_ghost_on;
+struct ref_parser g_ref; unsigned g_w, g_live0, g_steps, g_did_align; uint64_t g_buff0; int g_ghost_on; unsigned g_scan_again;
 #else
 #include "parse_contracts.h"
 #endif
